@@ -314,7 +314,7 @@ func closeRace(rounds int) string {
 func monitorsOf(line string) string {
 	var out []string
 	for _, w := range strings.Fields(line) {
-		for _, k := range []string{"maxconns=", "orphans=", "closedconns=", "afterclose=", "leaked=", "stack=", "stalled="} {
+		for _, k := range []string{"maxconns=", "orphans=", "closedconns=", "hostconns=", "afterclose=", "leaked=", "stack=", "stalled=", "lateadd=", "lateopen="} {
 			if strings.HasPrefix(w, k) {
 				out = append(out, w)
 			}
@@ -568,7 +568,11 @@ func main() {
 				w := strings.Fields(pr[i].op)
 				out.Case(pr[i].op, pr[i].impl, "pipe/"+w[1]+"/"+w[2], true)
 			}
-			out.Case(pr[i].obs, "accept", "pipeobs/A", true)
+			cls := "pipeobs/A"
+			if !strings.Contains(pr[i].obs, " lateadd=0 ") {
+				cls = "pipeobs/A/addHost-inside-Session.Close(KF-C17-3)"
+			}
+			out.Case(pr[i].obs, "accept", cls, true)
 		} else {
 			out.Case(pr[i].obs, "accept", "pipeobs/B", true)
 		}
